@@ -142,7 +142,7 @@ func (p *Parser) parseNode(node, parent *yaml.Node, group *Group, offsetLine, of
 		}
 		return groups
 	case yaml.ScalarNode:
-		if strings.Count(node.Value, "\n") > 1 && node.Value != strings.Join(contentLines, "\n") && node.Line < len(contentLines) {
+		if strings.Count(node.Value, "\n") > 1 && node.Value != strings.Join(contentLines, "\n") && node.Line < len(contentLines) && node.Style&yaml.LiteralStyle != 0 {
 			var n yaml.Node
 			// FIXME there must be a better way.
 			// If we have YAML inside YAML:
